@@ -393,6 +393,7 @@ def rule_worker_loops(ctx):
     c04.rule_task_handover(ctx)
     c04.rule_search_handover(ctx)
     c04.rule_pool_bits(ctx)
+    c04.rule_executor_identity(ctx)
 
 
 RULES.append(("C13.h", "run loops stop only when the worker's queues are empty (a task left in a parked worker's queue is a wake-up that does not lead to a poll)", rule_worker_loops))
